@@ -95,13 +95,58 @@ VK_MAIN()
 #endif
                 VK_ASSUME(c < VK_NLET); b[j] = VK_BIOTYPE == ALN_BIOTYPE_PROTEIN ? PROTLET[c] : c;
         }
+#ifndef VK_KERNEL
+#define VK_KERNEL 1
+#endif
+#if VK_KERNEL >= 2
+        /* groups of identical copies: the profile of VK_KA copies of a (and, for VK_KERNEL 3, of VK_KB copies of b) is built by the
+         * REAL profile code exactly as do_align does it - make_profile_n per copy, update_n along the diagonal, then
+         * set_gap_penalties_n with the size of the other side.  All scores then scale by F = KA*KB, so the oracle is the
+         * sequence-sequence oracle with the matrix and the penalties multiplied by F (tie-break terms do not scale: same tol). */
+        float *profa = NULL, *profb = NULL;
+        {
+                int dpath[VK_LA + VK_LB + 3];
+                float *p1 = NULL, *p2 = NULL, *acc = NULL;
+                VK_ASSERT(make_profile_n(&apc, a, VK_LA, &acc) == OK, "make_profile_n");
+                dpath[0] = VK_LA; for (int i = 1; i <= VK_LA; i++) dpath[i] = 0; dpath[VK_LA + 1] = 3;
+                for (int k = 1; k < VK_KA; k++) {
+                        VK_ASSERT(make_profile_n(&apc, a, VK_LA, &p2) == OK, "make_profile_n");
+                        p1 = malloc(sizeof(float) * 64 * (VK_LA + 2)); __CPROVER_assume(p1 != NULL);
+                        update_n(acc, p2, p1, &apc, dpath, k, 1);
+                        free(acc); free(p2); p2 = NULL; acc = p1;
+                }
+                profa = acc;
+#if VK_KERNEL == 3
+                acc = NULL;
+                VK_ASSERT(make_profile_n(&apc, b, VK_LB, &acc) == OK, "make_profile_n");
+                dpath[0] = VK_LB; for (int i = 1; i <= VK_LB; i++) dpath[i] = 0; dpath[VK_LB + 1] = 3;
+                for (int k = 1; k < VK_KB; k++) {
+                        VK_ASSERT(make_profile_n(&apc, b, VK_LB, &p2) == OK, "make_profile_n");
+                        p1 = malloc(sizeof(float) * 64 * (VK_LB + 2)); __CPROVER_assume(p1 != NULL);
+                        update_n(acc, p2, p1, &apc, dpath, k, 1);
+                        free(acc); free(p2); p2 = NULL; acc = p1;
+                }
+                profb = acc;
+                set_gap_penalties_n(profa, VK_LA, VK_KB);
+                set_gap_penalties_n(profb, VK_LB, VK_KA);
+#else
+                set_gap_penalties_n(profa, VK_LA, 1);
+#endif
+        }
+#endif
         struct aln_mem mm; struct aln_mem *m = &mm;
         m->size = VK_LB + 2; m->alloc_path_len = VK_LA + VK_LB + 2;
         m->f = malloc(sizeof(struct states) * m->size); m->b = malloc(sizeof(struct states) * m->size);
         m->path = malloc(sizeof(int) * m->alloc_path_len); m->tmp_path = malloc(sizeof(int) * m->alloc_path_len);
         __CPROVER_assume(m->f && m->b && m->path && m->tmp_path);
         m->ap = &apc; m->mode = ALN_MODE_FULL; m->len_a = VK_LA; m->len_b = VK_LB;
+#if VK_KERNEL == 1
         m->seq1 = a; m->seq2 = b; m->prof1 = NULL; m->prof2 = NULL; m->run_parallel = 0; m->sip = 0; m->score = 0.0f;
+#elif VK_KERNEL == 2
+        m->seq1 = NULL; m->seq2 = b; m->prof1 = profa; m->prof2 = NULL; m->run_parallel = 0; m->sip = VK_KA; m->score = 0.0f;
+#else
+        m->seq1 = NULL; m->seq2 = NULL; m->prof1 = profa; m->prof2 = profb; m->run_parallel = 0; m->sip = 0; m->score = 0.0f;
+#endif
         VK_ASSERT(init_alnmem(m) == OK, "init_alnmem succeeds");
         /* step 0 of every plan is the root rectangle with the states init_alnmem just set - checked, not assumed */
         VK_ASSERT(m->starta == STEP[0].sa && m->enda == STEP[0].ea && m->startb == STEP[0].sb && m->endb == STEP[0].eb && st_eq(m->f[0], STEP[0].fp) && st_eq(m->b[0], STEP[0].bp),
@@ -147,9 +192,18 @@ VK_MAIN()
 #else
         VK_ASSERT(vk_path_valid(m->path, VK_LA, VK_LB, VK_LA), "C07/C01: the DP returns a valid path (contract of the path-completion code)");
         if (vk_path_valid(m->path, VK_LA, VK_LB, VK_LA)) {
+#if VK_KERNEL >= 2
+                const float F = (float)(VK_KA * (VK_KERNEL == 3 ? VK_KB : 1));
+                static float flatS[23 * 23]; static float *rowsS[23];
+                for (int i = 0; i < 23; i++) { rowsS[i] = &flatS[23 * i]; for (int j = 0; j < 23; j++) flatS[23 * i + j] = F * flat[23 * i + j]; }
+                float hi = oracle_hi_path(rowsS, F * apc.gpo, F * apc.gpe, F * apc.tgpe, a, VK_LA, b, VK_LB, m->path);
+                float lo = oracle_lo_opt(rowsS, F * apc.gpo, F * apc.gpe, F * apc.tgpe, a, VK_LA, b, VK_LB);
+                float tol = (VK_TYPE == KALIGN_TYPE_RNA) ? 0.06f * F : 0.011f;
+#else
                 float hi = oracle_hi_path(rows, apc.gpo, apc.gpe, apc.tgpe, a, VK_LA, b, VK_LB, m->path);
                 float lo = oracle_lo_opt(rows, apc.gpo, apc.gpe, apc.tgpe, a, VK_LA, b, VK_LB);
                 float tol = (VK_TYPE == KALIGN_TYPE_RNA) ? 0.06f : 0.011f;
+#endif
 #ifdef VK_GPO
                 tol += 2.0f * apc.gpo;   /* user penalties: the property's safe margin 2*gpo (the tight bracket is validated for the five default sets only) */
 #endif
